@@ -6,6 +6,7 @@ import O2P.Model.Base64
 import O2P.Model.Signed
 import O2P.Model.CookieJar
 import O2P.Model.Redirect
+import O2P.Model.Authz
 /-!
   Driver glue for the Layer-A correspondence (`serve` op): decode Cfg / Req / Env from the
   `key=value` fields the harness recorded, run `O2P.serve`, print the canonical answer.
@@ -252,7 +253,17 @@ def opServe : Op
     let rdModel := env.redirectOf cfg req
     let lbRd : Bool := (← kBool e "redirecterr") || rdModel == redirect
     let lbApp : Bool := apprd.1.isEmpty || env.isValidRedirect apprd.1 == apprd.2
-    let lbTag := (if lbSession then "" else "LAYERB-SESSION-MISMATCH ") ++ (if lbCsrf then "" else "LAYERB-CSRF-MISMATCH ")
+    -- C08 models cross-checked against the observed validator / auth-only verdicts
+    let domains ← kStrs c "emaildomains"
+    let hasFile ← kBool c "emailsfile"
+    let lbEmail : Bool := hasFile || emails.all (fun x => O2P.Authz.emailValid domains [] x.1 == x.2)
+    let sessOfKey := fun (k : String) => (([env.load1, env.load2].filterMap (fun l => match l with | .ok s => some s | _ => none))
+        ++ (match bearer with | some s => [s] | none => []) ++ (match basic with | some s => [s] | none => [])
+        ++ (match refresh with | .refreshed s => [s] | _ => [])).find? (fun s => sessKey s == k)
+    let lbCon : Bool := constraints.all (fun x => match sessOfKey x.1 with
+      | some s => O2P.Authz.authOnly req.query (some { email := s.email, groups := s.groups }) == x.2
+      | none => true)
+    let lbTag := (if lbEmail then "" else "LAYERB-EMAIL-MISMATCH ") ++ (if lbCon then "" else "LAYERB-AUTHONLY-MISMATCH ") ++ (if lbSession then "" else "LAYERB-SESSION-MISMATCH ") ++ (if lbCsrf then "" else "LAYERB-CSRF-MISMATCH ")
       ++ (if lbRd then "" else s!"LAYERB-REDIRECT-MISMATCH({hex rdModel}) ") ++ (if lbApp then "" else "LAYERB-APPRD-MISMATCH ")
     -- render
     let sset := r.cookies.any (fun c => match c with | .setSession _ => true | _ => false)
